@@ -1,6 +1,7 @@
 package main
 
 import (
+	"verif/refcodec"
 	"encoding/json"
 	"fmt"
 	"io"
@@ -230,4 +231,62 @@ func (x *Exec) backup(op *Op) {
 	l2.Close()
 	jc, _ := json.Marshal(d2)
 	x.emit("same", map[string]any{"a": string(jb), "b": string(jc), "what": "backup answers like the source", "diff": firstDiff(after, d2)})
+}
+
+// synth (C13): the directory is written by the independent reference ENCODER (not by klevdb):
+// op.Batch = the messages, op.S = their offsets (strictly increasing), op.Segs = number of records per segment
+// (a trailing 0 = an empty head segment), op.Var bits choose log version, index presence and index version per segment.
+func (x *Exec) synth(op *Op) {
+	os.MkdirAll(x.dir, 0o700)
+	msgs := x.build(op.Batch)
+	var all []MM
+	pos := 0
+	next := int64(0)
+	if len(op.S) > 0 {
+		next = op.S[len(op.S)-1] + 1
+	}
+	for si, n := range op.Segs {
+		bits := op.Var >> (uint(si) * 3)
+		ver := 1 + bits&1
+		hasIx := bits&2 == 0
+		ixver := ver
+		if bits&4 != 0 {
+			ixver = 3 - ver
+		}
+		var recs []refcodec.Rec
+		base := next
+		if n > 0 {
+			base = op.S[pos]
+		}
+		p := int64(len(refcodec.LogHeader(ver)))
+		for k := 0; k < n; k++ {
+			m := msgs[pos]
+			r := refcodec.Rec{Pos: p, Offset: op.S[pos], Micros: m.Time.UnixMicro(), Key: m.Key, Value: m.Value}
+			r.Len = int64(len(refcodec.EncodeRec(ver, r.Offset, r.Micros, r.Key, r.Value)))
+			p += r.Len
+			recs = append(recs, r)
+			mm := x.conv1(m)
+			mm.Off = op.S[pos]
+			all = append(all, mm)
+			pos++
+		}
+		os.WriteFile(filepath.Join(x.dir, fmt.Sprintf("%020d.log", base)), refcodec.EncodeLog(ver, recs), 0o600)
+		if hasIx {
+			items := refcodec.DeriveIndex(recs, x.h.Times, x.h.Keys, 0)
+			os.WriteFile(filepath.Join(x.dir, fmt.Sprintf("%020d.index", base)), refcodec.EncodeIndex(ixver, x.h.Times, x.h.Keys, items), 0o600)
+		}
+	}
+	if all == nil {
+		all = []MM{}
+	}
+	for _, m := range all {
+		if !x.anyT || m.T < x.minT {
+			x.minT = m.T
+		}
+		if !x.anyT || m.T > x.maxT {
+			x.maxT = m.T
+		}
+		x.anyT = true
+	}
+	x.emit("synth", map[string]any{"msgs": all, "next": next, "segs": op.Segs, "var": op.Var})
 }
